@@ -88,10 +88,17 @@ fn seven_c(sk: &CompactThetaSketch) -> [f64; 7] {
     ]
 }
 
-fn obs_of(s: &[f64; 7], emp: bool, n: usize, estm: bool) -> Value {
+fn obs_of(s: &[f64; 7], emp: bool, n: usize, estm: bool, theta: u64) -> Value {
     let est = s[3];
     let estn: i64 = if est.fract() == 0.0 && est >= 0.0 && est < 2e9 { est as i64 } else { -1 };
-    json!({"b": ranks(s), "estn": estn, "ubpos": s[5] > 0.0, "emp": emp, "n": n, "est0": est == 0.0, "estm": estm})
+    json!({"b": ranks(s), "estn": estn, "ubpos": s[5] > 0.0, "emp": emp, "n": n, "est0": est == 0.0, "estm": estm,
+        // advertised one-sigma relative error (10^-5 units) and theta as a fraction (10^-5 units)
+        "rel5": rel5(s), "th5": ((theta as f64 / MAX_THETA as f64) * 1e5).round() as i64})
+}
+
+fn rel5(s: &[f64; 7]) -> Value {
+    let q = |x: f64| if x.is_finite() && x >= 0.0 { (x.min(0.3) * 1e5).round() as i64 } else { 30000 };
+    if s[3] > 0.0 && s[2] > 0.0 && s[4] > 0.0 { json!([q(s[3] / s[2] - 1.0), q(s[4] / s[3] - 1.0)]) } else { json!([-1, -1]) }
 }
 
 fn toks(s: &[f64; 7]) -> Value {
@@ -242,7 +249,7 @@ pub fn run(out: &mut Shards, scn: &str, lgk: u8, rf: u8, p: f32, seed: u64, ops:
             return;
         }
         let rebuilt = sk.theta64() != before_theta || (matches!(op, Op::Trim) && sk.num_retained() != before_n);
-        let o = obs_of(&seven_u(&sk), sk.is_empty(), sk.num_retained(), sk.is_estimation_mode());
+        let o = obs_of(&seven_u(&sk), sk.is_empty(), sk.num_retained(), sk.is_estimation_mode(), sk.theta64());
         match op {
             Op::Item(_) | Op::Str(_) | Op::Hash(_) => {
                 let hv = match op {
@@ -286,7 +293,7 @@ pub fn run(out: &mut Shards, scn: &str, lgk: u8, rf: u8, p: f32, seed: u64, ops:
                     "tok":[toks(&seven_u(&sk)), toks(&seven_c(&c))],
                     "eb":ents.iter().map(|&e| le8(e)).collect::<Vec<_>>(),"tb":le8(c.theta64()),"sh":sh.to_le_bytes().to_vec(),
                     "img3":img3,"img4":img4,"v4ref":v4ref,
-                    "o":obs_of(&seven_c(&c), c.is_empty(), c.num_retained(), c.is_estimation_mode())}));
+                    "o":obs_of(&seven_c(&c), c.is_empty(), c.num_retained(), c.is_estimation_mode(), c.theta64())}));
                 // C13: the same compact state as an image of every serial version
                 if ents.len() <= 300 {
                     let mut sorted = ents.clone();
@@ -313,7 +320,7 @@ pub fn run(out: &mut Shards, scn: &str, lgk: u8, rf: u8, p: f32, seed: u64, ops:
                                 let mut e = base;
                                 e["ok"] = json!(true);
                                 e["c"] = cstate(&b, &rk);
-                                e["o"] = obs_of(&seven_c(&b), b.is_empty(), b.num_retained(), b.is_estimation_mode());
+                                e["o"] = obs_of(&seven_c(&b), b.is_empty(), b.num_retained(), b.is_estimation_mode(), b.theta64());
                                 out.ev(e);
                             }
                             Ok(Err(err)) => {
@@ -347,7 +354,7 @@ pub fn run(out: &mut Shards, scn: &str, lgk: u8, rf: u8, p: f32, seed: u64, ops:
                             out.ev(json!({"op":"CRT","id":cid,"form":form,"to":to,"c":cstate(&b, &rk),
                                 "tok":[toks(&seven_c(&c)), toks(&seven_c(&b))],"same":again == bytes,
                                 "len":bytes.len(),
-                                "o":obs_of(&seven_c(&b), b.is_empty(), b.num_retained(), b.is_estimation_mode())}));
+                                "o":obs_of(&seven_c(&b), b.is_empty(), b.num_retained(), b.is_estimation_mode(), b.theta64())}));
                         }
                         Ok((_, Err(e))) => {
                             out.ev(json!({"op":"Panic","in":format!("deserialize-own-image-{form}"),"key":"Err","msg":e}));
@@ -554,6 +561,13 @@ pub fn record(args: &Args) {
             // one large configuration: table of 8192 slots
             let ops = random_ops(&mut rng, if thorough { 17000 } else { 4600 }, 5, false);
             run(&mut out, "theta-random", if thorough { 12 } else { 11 }, 3, 1.0, 9001, &ops);
+        }
+        if thorough && rep == 0 {
+            // lg_k 13 and 14 (C01 quantifies to 14): past the first rebuild, exact and sampling
+            for &(lgk, p) in &[(13u8, 1.0f32), (14, 0.5)] {
+                let ops = random_ops(&mut rng, (5usize << lgk) / 2, 3, false);
+                run(&mut out, "theta-random", lgk, 3, p, 9001, &ops);
+            }
         }
         for &lgk in &[5u8, 6, 7, 8] {
             for rf in 0..4u8 {
